@@ -84,7 +84,12 @@ int main()
     int nech = (int)rng.range(25, 80);
     // ---- data: several shapes of spatial behaviour
     int shape = (int)rng.range(0, 4);     // 0 smooth trend + noise, 1 pure noise, 2 constant-ish, 3 periodic, 4 few points
+    // the first configurations of every run are devoted to the shared rotation (strongly anisotropic rotated data, four
+    // directions, rotation inferred, one rotation for all structures, a linear-like structure first every other time)
+    bool devoted = ic < 8;
+    if (devoted) { shape = 5; nech = (int)rng.range(60, 80); }
     if (shape == 4) nech = (int)rng.range(6, 10);
+    double theta5 = (15. + 15. * (double)rng.range(0, 4)) * M_PI / 180.;
     auto X = genPoints(rng, nech, ndim, 16);
     std::vector<std::vector<double>> Z(nvar, std::vector<double>(nech));
     for (int a = 0; a < nvar; a++) for (int i = 0; i < nech; i++)
@@ -94,12 +99,16 @@ int main()
       else if (shape == 1) v = 4. * rng.unit();
       else if (shape == 2) v = 5. + 1e-6 * rng.unit();
       else if (shape == 3) v = cos(x) * sin(y * 0.7) * 3.;
+      else if (shape == 5) { double u = x * cos(theta5) + y * sin(theta5), w = -x * sin(theta5) + y * cos(theta5); v = 2. * sin(u / 1.5) + 0.7 * sin(w / 6.) + 0.3 * rng.unit(); }
       else v = rng.dyadic(-4, 4, 3);
-      Z[a][i] = v + (a ? 0.5 * Z[0][i] : 0.);
+      // the second variable is never an exact multiple of the first one (deterministic shapes would give
+      // Z2 = 1.5 Z1: every valid sill matrix is then singular and cokriging is singular by construction)
+      Z[a][i] = v + (a ? 0.5 * Z[0][i] + 0.25 * rng.unit() : 0.);
     }
     Db* db = makeDb(X, ndim, Z, {}, {}, {});
     // 1 direction (omnidirectional), 2 (anisotropy inferred, rotation not: the library needs more directions than dimensions), or 4 (rotation inferred)
-    int ndir = rng.coin(0.5) ? 1 : (rng.coin(0.5) ? 2 : 4);
+    int ndir = rng.coin(0.35) ? 1 : (rng.coin(0.4) ? 2 : 4);
+    if (devoted) ndir = 4;
     VarioParam vp;
     for (int d = 0; d < ndir; d++)
     {
@@ -115,7 +124,12 @@ int main()
     int ns = (int)rng.range(1, 3); VectorECov types; for (int k = 0; k < ns; k++) types.push_back(pool[rng.range(0, 6)]);
     Constraints cons; struct C { char kind; EConsElem elem; int icov, iv1, iv2; double bound; }; std::vector<C> mine;
     bool authAniso = rng.coin(0.6), authRot = rng.coin(0.6);
-    bool lockSame = rng.coin(0.3);
+    if (ndir > ndim && rng.coin(0.7)) authAniso = authRot = true;          // rotation inferred: exercised on purpose
+    bool rotInferred = authAniso && authRot && ndir > ndim;
+    bool lockSame = rng.coin(rotInferred ? 0.5 : 0.1);
+    bool noReduce = rng.coin(0.5);                                          // structures kept even when their sill vanishes
+    if (devoted) { authAniso = authRot = rotInferred = lockSame = noReduce = true; ns = 2; types.resize(2); types[0] = (ic % 2 == 0) ? ECov::LINEAR : pool[rng.range(1, 4)]; types[1] = pool[rng.range(1, 4)]; st.hit("devoted_shared_rotation"); }
+    if (lockSame && rotInferred && rng.coin(0.5)) { if (ns < 2) { ns = 2; types.push_back(pool[rng.range(1, 5)]); } types[0] = ECov::LINEAR; if (types[1] == ECov::LINEAR || types[1] == ECov::NUGGET) types[1] = ECov::SPHERICAL; st.hit("shared_rotation_linear_first"); }
     int ncons = rng.coin(0.5) ? 0 : (int)rng.range(1, 4);
     // a pair of constraints on the two ranges of one structure (each direction has its own parameter)
     if (authAniso && ndir >= 2 && rng.coin(0.7))
@@ -139,6 +153,7 @@ int main()
     for (int k = 0; k < ncons; k++)
     {
       int icov = (int)rng.range(0, ns - 1); int what = (int)rng.range(0, 4);
+      if (rotInferred && rng.coin(0.4)) what = 3;
       if (what == 3)
       {
         // rotation angle of one structure (inferred only with a directional variogram, anisotropy and rotation allowed):
@@ -177,7 +192,7 @@ int main()
       else if (what == 1) { double b = 0.25 * rng.range(1, 20); bool up = rng.coin(); cons.addItemFromParamId(EConsElem::SILL, icov, iv, iv, up ? EConsType::UPPER : EConsType::LOWER, b); mine.push_back({up ? 'U' : 'L', EConsElem::SILL, icov, iv, iv, b}); }
       else { double b = 0.5 + 0.5 * rng.range(0, 8); cons.addItemFromParamId(EConsElem::RANGE, icov, idir, 0, EConsType::EQUAL, b); mine.push_back({'E', EConsElem::RANGE, icov, idir, 0, b}); if (idir > 0) st.hit("range_constraint_second_direction"); }
     }
-    Option_VarioFit optvar(false, authAniso, authRot, lockSame);
+    Option_VarioFit optvar(noReduce, authAniso, authRot, lockSame);
     Model* model = new Model(nvar, ndim);
     int err = model->fit(vario, types, cons, optvar);
     st.hit(err == 0 ? "fit_success" : "fit_refused");
@@ -199,11 +214,12 @@ int main()
           for (int d = 0; d < ndim; d++) rangesOut.push_back(cova->getRange(d));
           if (!authAniso) { consOut += (first ? "" : ";") + std::string("S,") + dy(cova->getRange(0)) + "," + dy(cova->getRange(1)); first = false; st.hit("isotropy_required"); }
           if (!authRot && cova->getFlagRotation()) { consOut += (first ? "" : ";") + std::string("E,") + dy(cova->getAnisoAngles(0)) + "," + dy(0.); first = false; }
-          if (lockSame && authAniso && authRot && ndir > ndim)
-          { // one rotation shared by all the structures: compare with the first structure having a range
-            for (int k0 = 0; k0 < ic2; k0++) if (model->getCova(k0)->hasRange() > 0)
-            { consOut += (first ? "" : ";") + std::string("E,") + dy(cova->getAnisoAngles(0)) + "," + dy(model->getCova(k0)->getAnisoAngles(0)); first = false; st.hit("same_rotation_required"); break; }
-          }
+        }
+        if (cova->hasRange() != 0 && lockSame && authAniso && authRot && ndir > ndim)
+        { // one rotation shared by all the structures that can be anisotropic (linear-like ones included: hasRange() = -1):
+          // compare with the first such structure
+          for (int k0 = 0; k0 < ic2; k0++) if (model->getCova(k0)->hasRange() != 0)
+          { consOut += (first ? "" : ";") + std::string("E,") + dy(cova->getAnisoAngles(0)) + "," + dy(model->getCova(k0)->getAnisoAngles(0)); first = false; st.hit("same_rotation_required"); break; }
         }
       }
       // ---- user constraints on the returned model (structures may have been reduced: identify by order only when the count is kept)
